@@ -10,7 +10,7 @@ use crate::store::*;
 use futures::stream::FuturesUnordered;
 use futures::StreamExt;
 use std::collections::{BTreeMap, HashMap};
-use std::sync::atomic::Ordering;
+use std::sync::atomic::{AtomicUsize, Ordering};
 use std::sync::Arc;
 use std::time::Duration;
 use undermoon::broker::verif::*;
@@ -20,6 +20,37 @@ use undermoon::coordinator::verif::{ProxyMetaRespSender, ProxyMetaSender};
 use undermoon::protocol::{Array, BulkStr, Resp, RespVec};
 
 const SLOTS: usize = 16384;
+
+// Counters fed by the scheduling hook of proxy/blocking.rs (cfg undermoon_verif, common::verif_sched): "enqueue" is hit immediately
+// before TaskBlockingQueue::send parks a command in the blocking queue, "handoff" immediately before it hands a command to the
+// backend sender, "redispatch" for every command release_all takes out of the queue again.  They are the POSITIVE evidence for
+// "this command sits in a blocking queue"; no classification depends on a wall-clock wait.
+static ENQUEUED: AtomicUsize = AtomicUsize::new(0);
+static REDISPATCHED: AtomicUsize = AtomicUsize::new(0);
+static HANDED_OFF: AtomicUsize = AtomicUsize::new(0);
+
+fn install_hook() {
+    use std::sync::OnceLock;
+    static DONE: OnceLock<()> = OnceLock::new();
+    DONE.get_or_init(|| {
+        undermoon::common::verif_sched::set_callback(Some(Arc::new(|label: &'static str| match label {
+            "enqueue" => {
+                ENQUEUED.fetch_add(1, Ordering::SeqCst);
+            }
+            "redispatch" => {
+                REDISPATCHED.fetch_add(1, Ordering::SeqCst);
+            }
+            "handoff" => {
+                HANDED_OFF.fetch_add(1, Ordering::SeqCst);
+            }
+            _ => {}
+        })));
+    });
+}
+
+fn stuck_limit() -> Duration {
+    Duration::from_millis(std::env::var("UM_ROUTE_STUCK_MS").ok().and_then(|v| v.parse().ok()).unwrap_or(180_000))
+}
 
 fn slot_tags() -> &'static Vec<String> {
     use std::sync::OnceLock;
@@ -90,6 +121,17 @@ async fn read_phases(proxies: &BTreeMap<u64, Handler>) -> Phases {
                 e.1 = state;
             }
         }
+    }
+    ph
+}
+
+// waits (load-independent: up to stuck_limit()) until every task reports the expected pair of states
+async fn wait_states(proxies: &BTreeMap<u64, Handler>, want: (&str, &str)) -> Phases {
+    let t = std::time::Instant::now();
+    let mut ph = read_phases(proxies).await;
+    while !ph.values().all(|(a, b)| a == want.0 && b == want.1) && t.elapsed() < stuck_limit() {
+        tokio::time::sleep(Duration::from_millis(4)).await;
+        ph = read_phases(proxies).await;
     }
     ph
 }
@@ -167,24 +209,35 @@ fn err_word(s: &str) -> String {
 }
 
 // one GET per slot at proxy pid; a probe without reply when the others have been quiet for `idle` is parked in a blocking queue
-async fn probe_proxy(net: &Arc<Net>, pid: u64, h: &Handler, idle: Duration, max_stall: &mut Duration) -> Vec<Obs> {
+// one GET per slot at proxy pid.  Every probe ends up answered or parked in a blocking queue; the loop runs until
+//   answered + (enqueued - redispatched since the probes were issued) = number of probes,
+// so a probe is reported as parked (Q) only when the hook counted it into a blocking queue, however slow the machine is.
+// If neither a reply, nor a command reaching a fake node, nor a counter moved for stuck_limit() the unanswered probes are
+// reported as harness errors (never as Q).
+async fn probe_proxy(net: &Arc<Net>, pid: u64, h: &Handler, max_stall: &mut Duration) -> Vec<Obs> {
     let mut replies: Vec<Option<RespVec>> = vec![None; SLOTS];
+    let enq0 = ENQUEUED.load(Ordering::SeqCst);
+    let red0 = REDISPATCHED.load(Ordering::SeqCst);
     let mut futs = FuturesUnordered::new();
     for s in 0..SLOTS {
         let key = probe_key(s, pid);
         let h = h.clone();
         futs.push(async move { (s, send_cmd(&h, vec![b"GET".to_vec(), key]).await) });
     }
-    // quiescence = no reply and no command reaching any fake Redis node for `idle`
     let tick = Duration::from_millis(50);
+    let limit = stuck_limit();
     let mut quiet = Duration::from_millis(0);
     let mut last_log = net.log.lock().len();
-    let t0 = std::time::Instant::now();
-    let mut last_ev = t0;
-    let mut max_gap = Duration::from_millis(0);
-    let mut max_gap_at = 0usize;
+    let mut last_cnt = (enq0, red0);
     let mut ndone = 0usize;
+    let mut stuck = false;
+    let parked = || {
+        (ENQUEUED.load(Ordering::SeqCst) - enq0).saturating_sub(REDISPATCHED.load(Ordering::SeqCst) - red0)
+    };
     loop {
+        if ndone + parked() >= SLOTS {
+            break;
+        }
         match tokio::time::timeout(tick, futs.next()).await {
             Ok(Some((s, r))) => {
                 replies[s] = Some(r.unwrap_or_else(|| Resp::Error(b"harness: canceled".to_vec())));
@@ -192,36 +245,36 @@ async fn probe_proxy(net: &Arc<Net>, pid: u64, h: &Handler, idle: Duration, max_
                     *max_stall = quiet;
                 }
                 quiet = Duration::from_millis(0);
-                let g = last_ev.elapsed();
-                if g > max_gap {
-                    max_gap = g;
-                    max_gap_at = ndone;
-                }
-                last_ev = std::time::Instant::now();
                 ndone += 1;
             }
             Ok(None) => break,
             Err(_) => {
                 let n = net.log.lock().len();
-                if n != last_log {
+                let cnt = (ENQUEUED.load(Ordering::SeqCst), REDISPATCHED.load(Ordering::SeqCst));
+                if n != last_log || cnt != last_cnt {
                     last_log = n;
+                    last_cnt = cnt;
                     if quiet > *max_stall {
                         *max_stall = quiet;
                     }
                     quiet = Duration::from_millis(0);
                 } else {
                     quiet += tick;
-                    if quiet >= idle {
+                    if quiet >= limit {
+                        stuck = true;
                         break;
                     }
                 }
             }
         }
     }
+    let parked_now = parked();
     drop(futs);
     if std::env::var("UM_ROUTE_DEBUG").is_ok() {
-        eprintln!("probe p{}: done={} total={:?} max_gap={:?} after {} replies", pid, ndone, t0.elapsed(), max_gap, max_gap_at);
+        eprintln!("probe p{}: answered={} parked={} stuck={}", pid, ndone, parked_now, stuck);
     }
+    // unanswered probes are parked exactly when the counters account for all of them
+    let all_parked = !stuck && ndone + parked_now == SLOTS;
     // which node saw the GET of each probe key
     let mut seen: HashMap<Vec<u8>, Vec<u64>> = HashMap::new();
     {
@@ -242,7 +295,9 @@ async fn probe_proxy(net: &Arc<Net>, pid: u64, h: &Handler, idle: Duration, max_
         nodes.sort();
         let o = match &replies[s] {
             None => {
-                if nodes.is_empty() {
+                if !all_parked {
+                    Obs::Error("harness_probe_neither_answered_nor_parked".to_string())
+                } else if nodes.is_empty() {
                     Obs::Queued
                 } else {
                     Obs::Error(format!("no_reply_but_executed_on_{:?}", nodes))
@@ -455,14 +510,22 @@ pub fn run_case(rt: &tokio::runtime::Runtime, line: &str) -> String {
     let lim: u64 = hd[1].parse().expect("lim");
     let pin = hd[2].to_string();
 
-    // 1. the broker state
+    // 1. the broker state.  The pseudo-op `sync` marks a point where the coordinator already delivered the views of that moment;
+    //    the views of the final state are then delivered on top of them (higher epoch, possibly the same running tasks).
+    install_hook();
     let mut segs = hist.split(';').map(|s| s.trim());
     let h0: Vec<&str> = segs.next().expect("header").split_whitespace().collect();
     assert!(h0[0] == "H");
     let mut store = MetaStore::new(h0[1] == "1");
     let mut resolved = vec![format!("H {}", h0[1])];
+    let mut store_at_sync: Option<MetaStore> = None;
     for seg in segs {
         if seg.is_empty() {
+            continue;
+        }
+        if seg == "sync" {
+            store_at_sync = Some(store.clone());
+            resolved.push("sync".to_string());
             continue;
         }
         let toks: Vec<&str> = seg.split_whitespace().collect();
@@ -472,38 +535,48 @@ pub fn run_case(rt: &tokio::runtime::Runtime, line: &str) -> String {
     let cluster = store.get_cluster_by_name(&cname(1), lim).expect("cluster c1");
     let view_text = vcluster_s(&cluster);
     let truth = truth_of(&cluster);
-    let mut pids: Vec<u64> = cluster.get_nodes().iter().map(|n| id_of(n.get_proxy_address())).collect();
-    pids.sort();
-    pids.dedup();
-
-    let idle = Duration::from_millis(
-        std::env::var("UM_ROUTE_IDLE_MS").ok().and_then(|v| v.parse().ok()).unwrap_or(1500),
-    );
+    let pids_of = |c: &Cluster| -> Vec<u64> {
+        let mut v: Vec<u64> = c.get_nodes().iter().map(|n| id_of(n.get_proxy_address())).collect();
+        v.sort();
+        v.dedup();
+        v
+    };
+    let pids = pids_of(&cluster);
+    let pids_sync: Vec<u64> = match &store_at_sync {
+        Some(st) => st.get_cluster_by_name(&cname(1), lim).map(|c| pids_of(&c)).unwrap_or_default(),
+        None => vec![],
+    };
 
     let (ph, obs, note, max_stall) = rt.block_on(async {
         // 2. real proxies
         let net = Net::new();
-        let mut proxies: BTreeMap<u64, Handler> = BTreeMap::new();
-        for p in pids.iter() {
-            let h = new_proxy(&net, &host_of_proxy(*p), &paddr(*p));
-            net.handlers.lock().insert(paddr(*p), h.clone());
-            proxies.insert(*p, h);
+        let mut all: BTreeMap<u64, Handler> = BTreeMap::new();
+        for p in pids.iter().chain(pids_sync.iter()) {
+            if !all.contains_key(p) {
+                let h = new_proxy(&net, &host_of_proxy(*p), &paddr(*p));
+                net.handlers.lock().insert(paddr(*p), h.clone());
+                all.insert(*p, h);
+            }
         }
+        let proxies: BTreeMap<u64, Handler> = all.iter().filter(|(p, _)| pids.contains(p)).map(|(p, h)| (*p, h.clone())).collect();
         // 3. metadata through the coordinator's sender, with the handshake gated
         set_gates(&net, if pin == "pb" { "pc" } else { &pin });
         let sender = ProxyMetaRespSender::new(Arc::new(NetClientFactory { net: net.clone() }), compress);
         let mut note = String::new();
-        for p in pids.iter() {
-            let view = store.get_proxy_by_address(&paddr(*p), lim).expect("proxy view");
+        let first_store = store_at_sync.as_ref().unwrap_or(&store);
+        let first_pids = if store_at_sync.is_some() { &pids_sync } else { &pids };
+        for p in first_pids.iter() {
+            let view = first_store.get_proxy_by_address(&paddr(*p), lim).expect("proxy view");
             if let Err(e) = sender.send_meta(view).await {
                 note.push_str(&format!("send_meta_failed:{}:{:?};", p, e));
             }
         }
         // 4. pin the phases
+        let pinned: BTreeMap<u64, Handler> = all.iter().filter(|(p, _)| first_pids.contains(p)).map(|(p, h)| (*p, h.clone())).collect();
         if pin == "pb" {
             // keep one command running on every migration source node, then let PRECHECK through: the migrating tasks
             // raise their barrier and wait in PreBlocking for that command
-            let ph0 = read_phases(&proxies).await;
+            let ph0 = read_phases(&pinned).await;
             net.hold_plug.store(true, Ordering::SeqCst);
             let mut plugged = vec![];
             for ((ranges, src, _), _) in ph0.iter() {
@@ -513,13 +586,14 @@ pub fn run_case(rt: &tokio::runtime::Runtime, line: &str) -> String {
                 plugged.push(*src);
                 let first: usize = ranges.split(|c| c == '-' || c == ',').next().and_then(|x| x.parse().ok()).expect("range");
                 let key = format!("plug{{{}}}", slot_tags()[first]).into_bytes();
-                let h = proxies.get(&(*src / 2)).expect("src proxy").clone();
+                let h = pinned.get(&(*src / 2)).expect("src proxy").clone();
                 tokio::spawn(async move {
                     let _ = send_cmd(&h, vec![b"GET".to_vec(), key]).await;
                 });
             }
             // wait until the plugs reached the nodes
-            for _ in 0..500 {
+            let t = std::time::Instant::now();
+            while t.elapsed() < stuck_limit() {
                 let n = net.log.lock().iter().filter(|(_, _, k)| k.starts_with(b"plug")).count();
                 if n >= plugged.len() {
                     break;
@@ -529,22 +603,70 @@ pub fn run_case(rt: &tokio::runtime::Runtime, line: &str) -> String {
             net.gate_precheck.store(GATE_PASS, Ordering::SeqCst);
         }
         let want = expected_states(&pin);
-        let mut ph = read_phases(&proxies).await;
-        for _ in 0..1500 {
-            if ph.values().all(|(a, b)| a == want.0 && b == want.1) {
-                break;
+        let mut ph = wait_states(&pinned, want).await;
+        // The barrier flag is not part of the task state: PRE_BLOCKING is set just before start_blocking, SCANNING just before the
+        // BlockingHandle is dropped.  Establish it with a sentinel command per source node and the hook counters.
+        if pin == "pb" || pin == "scan" {
+            let want_blocked = pin == "pb";
+            let mut done: Vec<u64> = vec![];
+            for ((ranges, src, _), _) in ph.clone().iter() {
+                if done.contains(src) {
+                    continue;
+                }
+                done.push(*src);
+                let slot: Option<usize> = if want_blocked {
+                    ranges.split(|c| c == '-' || c == ',').next().and_then(|x| x.parse().ok())
+                } else {
+                    (0..SLOTS).find(|s| truth.owner[*s] == Some(*src) && truth.mig[*s].is_none())
+                };
+                let slot = match slot {
+                    Some(s) => s,
+                    None => continue,
+                };
+                let h = match pinned.get(&(*src / 2)) {
+                    Some(h) => h.clone(),
+                    None => continue,
+                };
+                let t = std::time::Instant::now();
+                let mut k = 0u64;
+                loop {
+                    let (e0, h0) = (ENQUEUED.load(Ordering::SeqCst), HANDED_OFF.load(Ordering::SeqCst));
+                    let key = format!("sent{}{{{}}}", k, slot_tags()[slot]).into_bytes();
+                    k += 1;
+                    let hh = h.clone();
+                    tokio::spawn(async move {
+                        let _ = send_cmd(&hh, vec![b"GET".to_vec(), key]).await;
+                    });
+                    while ENQUEUED.load(Ordering::SeqCst) == e0 && HANDED_OFF.load(Ordering::SeqCst) == h0 && t.elapsed() < stuck_limit() {
+                        tokio::time::sleep(Duration::from_millis(1)).await;
+                    }
+                    let was_parked = ENQUEUED.load(Ordering::SeqCst) != e0;
+                    if was_parked == want_blocked {
+                        break;
+                    }
+                    if t.elapsed() >= stuck_limit() {
+                        note.push_str(&format!("barrier_of_node_{}_not_{};", src, if want_blocked { "raised" } else { "lowered" }));
+                        break;
+                    }
+                    tokio::time::sleep(Duration::from_millis(2)).await;
+                }
             }
-            tokio::time::sleep(Duration::from_millis(4)).await;
-            ph = read_phases(&proxies).await;
         }
-        // let the barrier settle (start_blocking after PreBlocking, handle.stop() after Scanning)
-        let settle: u64 = std::env::var("UM_ROUTE_SETTLE_MS").ok().and_then(|v| v.parse().ok()).unwrap_or(30);
-        tokio::time::sleep(Duration::from_millis(settle)).await;
+        if store_at_sync.is_some() {
+            // the coordinator's next round: the views of the final state on top of the installed ones
+            for p in pids.iter() {
+                let view = store.get_proxy_by_address(&paddr(*p), lim).expect("proxy view");
+                if let Err(e) = sender.send_meta(view).await {
+                    note.push_str(&format!("send_meta_failed:{}:{:?};", p, e));
+                }
+            }
+            ph = wait_states(&proxies, want).await;
+        }
         // 5. probes
         let mut obs: BTreeMap<u64, Vec<Obs>> = BTreeMap::new();
         let mut max_stall = Duration::from_millis(0);
         for (p, h) in proxies.iter() {
-            obs.insert(*p, probe_proxy(&net, *p, h, idle, &mut max_stall).await);
+            obs.insert(*p, probe_proxy(&net, *p, h, &mut max_stall).await);
         }
         let ph_after = read_phases(&proxies).await;
         if ph_after != ph {
